@@ -66,7 +66,7 @@ mut("c16-exhausted-sign-corrupts-state", "C16", L,
     "            if q >= (1u32 << h) {\n                self.current_leaf = q.wrapping_add(1);\n                return None;\n            }\n            self.current_leaf = q + 1;",
     "a failed sign on an exhausted key still changes the state")
 mut("c16-sibling-index-wrong", "C16", L,
-    "                let k = if (r & 1) == 0 { r + 1 } else { r - 1 };", "                let k = if (r & 1) == 0 { r + 1 } else { r - 1 + ((r >> 5) & (i as u32 >> 2) & 1) * 2 };",
+    "                let k = if (r & 1) == 0 { r + 1 } else { r - 1 };", "                let k = if (r & 1) == 0 { r + 1 } else { r - 1 + ((i as u32 >> 2) & 1) * 2 };",
     "authentication path uses a wrong sibling at the top level for leaves in the upper half")
 mut("c16-verify-accepts-longer-signature", "C16", L,
     "            if sig.len() != lms_siglen {\n                return false;\n            }\n            let q = u32::from_be_bytes",
@@ -122,7 +122,7 @@ mut("c18-revert-fix-m51-legendre", "C18", "src/backend/w64/gf255_m51.rs",
     "revert of fix 5413ae4")
 mut("c18-revert-fix-m51-lindiv", "C18", "src/backend/w64/gf255_m51.rs",
     "        let r1 = (v1 ^ sv).wrapping_add(r0 >> 51);", "        let r1 = (v1 ^ sv).wrapping_add(r0 >> 63);", "partial revert of fix 5484531 (result negation carry)")
-mut("c18-zz32-mul-carry", "C18", "src/backend/w64/zz32.rs", '            d[i + 4] = hi;\n        }\n        Zu256(d)', '            d[i + 4] = if i == 3 { hi & 0xFFFFFFFE } else { hi };\n        }\n        Zu256(d)', "zz32: one wrong carry in a helper multiplication (filled in by find_zz32)")
+mut("c18-zz32-mul-carry", "C18", "src/backend/w64/zz32.rs", '            d[i + 4] = hi;\n        }\n        Zu256(d)', '            d[i + 4] = if i == 3 { hi & 0x3FFFFFFF } else { hi };\n        }\n        Zu256(d)', "zz32: one wrong carry in a helper multiplication (filled in by find_zz32)")
 mut("c18-w32-gf255-half", "C18", "src/backend/w32/gf255.rs", '        for i in 0..7 {\n            self.0[i] = (self.0[i] >> 1) | (self.0[i + 1] << 31);\n        }\n        self.0[7] = self.0[7] >> 1;\n\n        // 2. If the dropped bit was 1, add back (q+1)/2.', '        for i in 0..6 {\n            self.0[i] = (self.0[i] >> 1) | (self.0[i + 1] << 31);\n        }\n        self.0[6] = self.0[6] >> 1;\n        self.0[7] = self.0[7] >> 1;\n\n        // 2. If the dropped bit was 1, add back (q+1)/2.', "w32 GF255: set_half wrong for odd inputs with top limb bit set (filled in below)")
 mut("c18-avx2-blake2s-rotation", "C18", "src/blake2s.rs", '_mm_srli_epi32(xtg, 12), _mm_slli_epi32(xtg, 20));', '_mm_srli_epi32(xtg, 12), _mm_slli_epi32(xtg, 19));', "AVX2 BLAKE2s: one wrong rotation constant (filled in below)", n=0)
 mut("c18-clmul-gfb254-square", "C18", "src/backend/w64/gfb254_x86clmul.rs", '            let h = _mm256_slli_epi64(f, 1);\n\n            let b = _mm256_xor_si256(d0, _mm256_xor_si256(g, h));\n\n            // Resplit b into the two individual squares and assemble.', '            let h = _mm256_slli_epi64(f, 2);\n\n            let b = _mm256_xor_si256(d0, _mm256_xor_si256(g, h));\n\n            // Resplit b into the two individual squares and assemble.', "CLMUL GF(2^127): wrong reduction in squaring (filled in below)")
